@@ -578,6 +578,23 @@ decompress_smooth_data(j_decompress_ptr cinfo, _JSAMPIMAGE output_buf)
       DC11 = DC12 = DC13 = DC14 = DC15 = (int)buffer_ptr[0][0];
       DC16 = DC17 = DC18 = DC19 = DC20 = (int)next_block_row[0][0];
       DC21 = DC22 = DC23 = DC24 = DC25 = (int)next_next_block_row[0][0];
+      if (cinfo->master->first_MCU_col[ci] > 0) {
+        /* The region starts inside the image, so the left-hand neighbors of
+         * its first block column exist.  Use them, as a full decode would.
+         */
+        int left = cinfo->master->first_MCU_col[ci] > 1 ? -2 : -1;
+
+        DC01 = (int)prev_prev_block_row[left][0];
+        DC02 = (int)prev_prev_block_row[-1][0];
+        DC06 = (int)prev_block_row[left][0];
+        DC07 = (int)prev_block_row[-1][0];
+        DC11 = (int)buffer_ptr[left][0];
+        DC12 = (int)buffer_ptr[-1][0];
+        DC16 = (int)next_block_row[left][0];
+        DC17 = (int)next_block_row[-1][0];
+        DC21 = (int)next_next_block_row[left][0];
+        DC22 = (int)next_next_block_row[-1][0];
+      }
       output_col = 0;
       last_block_column = compptr->width_in_blocks - 1;
       for (block_num = cinfo->master->first_MCU_col[ci];
